@@ -1,0 +1,21 @@
+//go:build verif
+
+package batchrelease
+
+import (
+	"k8s.io/apimachinery/pkg/runtime"
+	"k8s.io/client-go/tools/record"
+	"sigs.k8s.io/controller-runtime/pkg/client"
+)
+
+// VerifNewReconciler builds a BatchReleaseReconciler over the given client
+// (verification harness only; events are discarded).
+func VerifNewReconciler(cli client.Client, scheme *runtime.Scheme) *BatchReleaseReconciler {
+	rec := &record.FakeRecorder{}
+	return &BatchReleaseReconciler{
+		Client:   cli,
+		Scheme:   scheme,
+		recorder: rec,
+		executor: NewReleasePlanExecutor(cli, rec),
+	}
+}
